@@ -399,7 +399,7 @@ func c06CommitMoveAtomic(p *Prog, r *Report) {
 		r.Undecided("C06.e", kUpdateTx, "", "core.UpdateTx not found")
 		return
 	}
-	f := p.FlatOf(fi)
+	f := p.FlatInlExcept(fi, kStoreToTx)
 	all := allStorePath(fi)
 	// unlink sites executed in the body (range loops included; deferred closures run after the publication)
 	unl := f.Match(func(n *GNode) bool {
@@ -436,6 +436,10 @@ func c06CommitMoveAtomic(p *Prog, r *Report) {
 				bad = p.pos(f.Nodes[x].Ast)
 			}
 		}
+	}
+	if len(pubs) == 0 && bad == "" && p.funcCallsDeep(fi, p.keysPred(kStoreToTx)) {
+		r.Undecided("C06.e", kUpdateTx+"#unlink-publish-atomic", p.pos(fi.Decl), "the publication happens in a helper the rule cannot order against the unlinking")
+		return
 	}
 	r.Check(bad == "" && len(pubs) > 0, "C06.e", kUpdateTx+"#unlink-publish-atomic", p.pos(fi.Decl), "no gap between unlinking the transaction's versions and publishing the committed ones",
 		"the committing transaction's versions are unlinked from the all-store, the all-store lock is released (at "+bad+") and only later the committed versions are published: in between a ReadUncommitted reader sees neither and reports an acknowledged key as not found")
@@ -639,6 +643,23 @@ func storeRole(p *Prog, fi *FuncInfo, path string) string {
 		if c, ok := ast.Unparen(as.Rhs[0]).(*ast.CallExpr); ok && len(c.Args) == 1 &&
 			p.callIs(fi.Pkg, c, "(*internal/model/core.Transactions).Get", "(*internal/model/core.Transactions).Delete") {
 			role = idRole(p, fi, c.Args[0], 0)
+		} else if ok {
+			// a get-or-create helper of the package: the store registered under one of its parameters
+			if h := p.staticCallee(fi.Pkg, c); h != nil && h.Pkg == fi.Pkg && h.Decl != nil && h.Decl.Body != nil {
+				args := argExprs(c, h)
+				ast.Inspect(h.Decl.Body, func(y ast.Node) bool {
+					hc, ok := y.(*ast.CallExpr)
+					if !ok || len(hc.Args) != 1 || !p.callIs(h.Pkg, hc, "(*internal/model/core.Transactions).Get", "(*internal/model/core.Transactions).Delete") {
+						return true
+					}
+					for i, po := range paramObjs(h) {
+						if po != nil && objOf(h.Pkg.TypesInfo, hc.Args[0]) == po && args[i] != nil {
+							role = idRole(p, fi, args[i], 0)
+						}
+					}
+					return true
+				})
+			}
 		}
 		_ = info
 		return true
@@ -737,9 +758,37 @@ func c06ClassGraph(p *Prog, r *Report) {
 					for c := range may[ck] {
 						for _, h := range ev.Held {
 							if h.Class == c && c == clsTransaction {
-								// a callee may take a store lock while one is held: order unknown
-								r.Viol("C06.a", fmt.Sprintf("%s#call %s under %s", fi.Key, ck, h.Path), p.pos(ev.Call),
-									"a callee may acquire a transaction-store lock while the caller already holds one: the own < main < all-store order cannot be established")
+								// a callee takes a store lock while one is held: the callee's lock, named in the
+								// caller's terms (receiver and parameters replaced by the arguments), must come later
+								// in the order own < main < all-store
+								acqs, known := txAcquisitions(p, p.Funcs[ck], 3, map[string]bool{})
+								cons := fmt.Sprintf("%s#call %s under %s", fi.Key, ck, h.Path)
+								if !known || p.Funcs[ck] == nil || ev.Call == nil {
+									r.Undecided("C06.a", cons, p.pos(ev.Call), "a callee may acquire a transaction-store lock while the caller already holds one, and the callee's lock cannot be named in the caller's terms")
+									continue
+								}
+								okAll, detail := true, ""
+								undec := false
+								for _, a := range acqs {
+									tp, ok := translateLockPath(p, fi, ev.Call, p.Funcs[ck], a)
+									if !ok {
+										undec = true
+										continue
+									}
+									if tp == h.Path {
+										okAll, detail = false, fmt.Sprintf("%s is held and %s acquires it again: the call blocks forever", h.Path, ck)
+										continue
+									}
+									fr, tr := storeRole(p, fi, h.Path), storeRole(p, fi, tp)
+									if !(roleRank[fr] < roleRank[tr]) {
+										okAll, detail = false, fmt.Sprintf("%s (%s store) is held while %s acquires %s (%s store): the global order is own < main < all-store", h.Path, fr, ck, tp, tr)
+									}
+								}
+								if okAll && undec {
+									r.Undecided("C06.a", cons, p.pos(ev.Call), "a lock the callee acquires cannot be named in the caller's terms")
+									continue
+								}
+								r.Check(okAll, "C06.a", cons, p.pos(ev.Call), "the callee's store locks come later in the order own < main < all-store", detail)
 								continue
 							}
 							e := edge{h.Class, c}
@@ -913,4 +962,82 @@ func localClosure(p *Prog, roots ...string) []*FuncInfo {
 	}
 	sort.Slice(res, func(i, j int) bool { return res[i].Key < res[j].Key })
 	return res
+}
+
+// txAcquisitions lists the transaction-store locks a function acquires (blocking, on its own stack), as access
+// paths in the function's own terms; locks of its same-package callees are renamed through the call's arguments.
+// known=false: some acquisition could not be named (interface call, untranslatable argument).
+func txAcquisitions(p *Prog, fi *FuncInfo, depth int, open map[string]bool) (paths []string, known bool) {
+	if fi == nil || fi.Decl == nil || fi.Decl.Body == nil {
+		return nil, false
+	}
+	if depth < 0 || open[fi.Key] {
+		return nil, false
+	}
+	open[fi.Key] = true
+	defer delete(open, fi.Key)
+	known = true
+	lr := p.LockFlow(fi, entryHeldFor(p, fi))
+	seen := map[string]bool{}
+	add := func(s string) {
+		if !seen[s] {
+			seen[s] = true
+			paths = append(paths, s)
+		}
+	}
+	for _, ev := range lr.Events {
+		if ev.Ctx == "go" {
+			continue
+		}
+		switch ev.Kind {
+		case "acquire":
+			if !ev.Op.Try && ev.Op.Class == clsTransaction {
+				add(ev.Op.Path)
+			}
+		case "call":
+			if ev.Call == nil {
+				continue
+			}
+			callee := p.staticCallee(fi.Pkg, ev.Call)
+			if callee == nil || callee.Pkg != fi.Pkg || callee.Decl == nil || callee.Decl.Body == nil {
+				continue // other packages: their own store locks are covered by the class graph
+			}
+			sub, k := txAcquisitions(p, callee, depth-1, open)
+			if !k {
+				known = false
+			}
+			for _, sp := range sub {
+				if tp, ok := translateLockPath(p, fi, ev.Call, callee, sp); ok {
+					add(tp)
+				} else {
+					known = false
+				}
+			}
+		}
+	}
+	return paths, known
+}
+
+// translateLockPath renames a lock path of the callee (root = receiver or parameter name) into the caller's terms.
+func translateLockPath(p *Prog, caller *FuncInfo, c *ast.CallExpr, callee *FuncInfo, path string) (string, bool) {
+	root, rest := path, ""
+	if i := strings.Index(path, "."); i >= 0 {
+		root, rest = path[:i], path[i:]
+	}
+	args := argExprs(c, callee)
+	for i, po := range paramObjs(callee) {
+		if po == nil || po.Name() != root || args[i] == nil {
+			continue
+		}
+		a := ast.Unparen(args[i])
+		if u, ok := a.(*ast.UnaryExpr); ok && u.Op == token.AND {
+			a = ast.Unparen(u.X)
+		}
+		switch a.(type) {
+		case *ast.Ident, *ast.SelectorExpr:
+			return types.ExprString(a) + rest, true
+		}
+		return "", false
+	}
+	return "", false
 }
